@@ -91,6 +91,11 @@ GcdRow(row, acc) ==
 RECURSIVE GcdRows(_, _)
 GcdRows(rows, acc) ==
     IF rows = <<>> \/ acc = 1 THEN acc ELSE GcdRows(Tail(rows), GcdRow(Head(rows), acc))
+\* every |re|, |im| and the denominator are at most b  (32-bit safety margin for the next operation)
+EntriesWithin(M, b) ==
+    /\ M.d <= b
+    /\ \A i \in 1..M.r: \A j \in 1..M.c:
+          /\ M.e[i][j][1] <= b /\ M.e[i][j][1] >= -b /\ M.e[i][j][2] <= b /\ M.e[i][j][2] >= -b
 MNormalize(M) ==
     LET g == GcdRows(M.e, M.d) IN
     IF g <= 1 THEN M
